@@ -104,14 +104,3 @@ pub fn encode<T: Serialize>(
 ) -> Result<String, Error> {
     Ok(jwt_encode(&build_header(header)?, &key.key, claims)?)
 }
-
-/// Verification hook, compiled only with `--cfg sdjwt_verif`: the header `build_header` hands to the JWT
-/// library, serialised as that library serialises it. It adds no behaviour of its own.
-#[cfg(sdjwt_verif)]
-pub mod verif_hooks {
-    use super::*;
-
-    pub fn build_header(header: &Header) -> Result<serde_json::Value, Error> {
-        Ok(serde_json::to_value(super::build_header(header)?)?)
-    }
-}
